@@ -228,6 +228,10 @@ func flat(v Val) []string {
 		}
 		return out
 	case Ptr:
+		if v.isElem() && v.Path == "" {
+			// pointer to a slice element as a first-class value: injective pairing (negative, so disjoint from object refs)
+			return []string{app("eptr", v.Base, v.Idx)}
+		}
 		if v.Path != "" || v.isElem() || strings.HasPrefix(v.Root, "G|") {
 			panic(unsupported("interior/element/global pointer used as a first-class value: " + v.Root + " " + v.Path))
 		}
